@@ -109,14 +109,14 @@ theorem HInvP.congr_N {A : Pos → Option (Leaf H)} {C : H → Option Pos} {N N'
 
 /-- every node position of `F` minus the leaves below `d` that lies at/below a later target `d'` or
 above its parent is a node position of `F` -/
-theorem nodepos_back (cr : CR H) (F : Forest H) (hn : F.numLeaves < 2 ^ 64) (hy : Hyg F) {d : Pos} {h : H} {b : Bool}
+theorem nodepos_back (nz : NZ H) (F : Forest H) (hn : F.numLeaves < 2 ^ 64) (hy : Hyg F) {d : Pos} {h : H} {b : Bool}
     (hd : (d, h, b) ∈ F.nodes) {d' : Pos}
     (hs : ¬ Anc (parent d) d' ∧ ¬ Anc d' (parent d)) {q : Pos}
     (hq : Anc d' q ∨ Anc q (parent d'))
     (hm : ∃ h0 f, (q, h0, f) ∈ (F.delLeaves (leavesUnder F d)).nodes) : ∃ h0 f, (q, h0, f) ∈ F.nodes := by
   obtain ⟨h0, f, hm⟩ := hm
   by_cases hroot : isRootPos F.numLeaves d = true
-  · have D := del_root cr F hn hy hroot (leavesUnder F d) (fun x => mem_leavesUnder)
+  · have D := del_root nz F hn hy hroot (leavesUnder F d) (fun x => mem_leavesUnder)
     rcases (D _).1 hm with ⟨_, hN⟩ | e
     · exact ⟨h0, f, hN⟩
     · simp only [Prod.mk.injEq] at e
@@ -125,7 +125,7 @@ theorem nodepos_back (cr : CR H) (F : Forest H) (hn : F.numLeaves < 2 ^ 64) (hy 
       cases hx : isRootPos F.numLeaves d with
       | false => rfl
       | true => exact absurd hx hroot
-    obtain ⟨D1, _, _, _⟩ := del_nonroot cr F hn hy hd hnr (leavesUnder F d) (fun x => mem_leavesUnder)
+    obtain ⟨D1, _, _, _⟩ := del_nonroot nz F hn hy hd hnr (leavesUnder F d) (fun x => mem_leavesUnder)
     rcases D1 _ hm with ⟨_, _, hN⟩ | ⟨c, hc, he, _⟩ | ⟨_, _, _, h1, hN⟩
     · exact ⟨h0, f, hN⟩
     · exfalso
@@ -139,7 +139,7 @@ theorem nodepos_back (cr : CR H) (F : Forest H) (hn : F.numLeaves < 2 ^ 64) (hy 
         exact hs.1 (Anc.trans (Anc.trans hu hq) (anc_parent_self d'))
     · exact ⟨h1, false, hN⟩
 
-theorem unremove_chain (cr : CR H) : ∀ (ds : List Pos) (F : Forest H), F.numLeaves < 2 ^ 64 → Hyg F →
+theorem unremove_chain (nz : NZ H) : ∀ (ds : List Pos) (F : Forest H), F.numLeaves < 2 ^ 64 → Hyg F →
     (∀ d ∈ ds, ∃ h b, (d, h, b) ∈ F.nodes) →
     ds.Pairwise (fun a b => ¬ Anc (parent a) b ∧ ¬ Anc b (parent a)) →
     ∀ (K Kp : H → Prop), (∀ d ∈ ds, ∀ t x, (t, x, true) ∈ F.nodes → Anc d t → ¬ K x) →
@@ -155,13 +155,13 @@ theorem unremove_chain (cr : CR H) : ∀ (ds : List Pos) (F : Forest H), F.numLe
   | d :: ds, F, hn, hy, hnode, hsep, K, Kp, hKd, hKpd, A, C, inv => by
     obtain ⟨h, b, hd⟩ := hnode d List.mem_cons_self
     rw [List.pairwise_cons] at hsep
-    have L := laws_forest cr F hn hy
+    have L := laws_forest nz F hn hy
     -- the forest after the first removal
     have hy1 := hyg_delLeaves hy (leavesUnder F d)
     have hnl1 : (F.delLeaves (leavesUnder F d)).numLeaves = F.numLeaves := numLeaves_delLeaves F _
     have hn1 : (F.delLeaves (leavesUnder F d)).numLeaves < 2 ^ 64 := by rw [hnl1]; exact hn
     have L1 : Laws (F.delLeaves (leavesUnder F d)).nodes (FRoot F) := by
-      have := laws_forest cr (F.delLeaves (leavesUnder F d)) hn1 hy1
+      have := laws_forest nz (F.delLeaves (leavesUnder F d)) hn1 hy1
       rwa [froot_del] at this
     have pers : ∀ d' ∈ ds,
         (∀ h' b', (d', h', b') ∈ F.nodes → (d', h', b') ∈ (F.delLeaves (leavesUnder F d)).nodes) ∧
@@ -170,12 +170,12 @@ theorem unremove_chain (cr : CR H) : ∀ (ds : List Pos) (F : Forest H), F.numLe
       have hs := hsep.1 d' hd'
       by_cases hroot : isRootPos F.numLeaves d = true
       · obtain ⟨s1, s2⟩ := sep_disj hs
-        exact persist_root cr F hn hy hroot s1 s2
+        exact persist_root nz F hn hy hroot s1 s2
       · have hnr : isRootPos F.numLeaves d = false := by
           cases hx : isRootPos F.numLeaves d with
           | false => rfl
           | true => exact absurd hx hroot
-        exact persist_nonroot cr F hn hy hd hnr hs.1 hs.2
+        exact persist_nonroot nz F hn hy hd hnr hs.1 hs.2
     have hmemLU : ∀ d' ∈ ds, ∀ x, x ∈ leavesUnder (F.delLeaves (leavesUnder F d)) d' ↔ x ∈ leavesUnder F d' := by
       intro d' hd' x
       rw [mem_leavesUnder, mem_leavesUnder]
@@ -196,7 +196,7 @@ theorem unremove_chain (cr : CR H) : ∀ (ds : List Pos) (F : Forest H), F.numLe
       simp only [List.flatMap_cons, List.mem_append]
       rw [hmemAll]
     -- the rest of the chain, in the forest after the first removal
-    have ih := unremove_chain cr ds (F.delLeaves (leavesUnder F d)) hn1 hy1
+    have ih := unremove_chain nz ds (F.delLeaves (leavesUnder F d)) hn1 hy1
       (fun d' hd' => by
         obtain ⟨h', b', hm⟩ := hnode d' (List.mem_cons_of_mem _ hd')
         exact ⟨h', b', (pers d' hd').1 h' b' hm⟩)
@@ -235,13 +235,13 @@ theorem unremove_chain (cr : CR H) : ∀ (ds : List Pos) (F : Forest H), F.numLe
     have conv : ∀ q, (∃ d' ∈ ds, holeOf (F.delLeaves (leavesUnder F d)).nodes d' q) →
         ∃ d' ∈ d :: ds, holeOf F.nodes d' q := by
       rintro q ⟨d', hd', hq, hm⟩
-      exact ⟨d', List.mem_cons_of_mem _ hd', hq, nodepos_back cr F hn hy hd (hsep.1 d' hd') hq hm⟩
+      exact ⟨d', List.mem_cons_of_mem _ hd', hq, nodepos_back nz F hn hy hd (hsep.1 d' hd') hq hm⟩
     show HInvP (stepBack F.numLeaves d (moveBackAll F.numLeaves ds (A, C))).1
       (stepBack F.numLeaves d (moveBackAll F.numLeaves ds (A, C))).2 F.nodes (FRoot F) K Kp _
     unfold stepBack
     by_cases hroot : isRootPos F.numLeaves d = true
     · rw [if_pos hroot]
-      have hN'' := del_root cr F hn hy hroot (leavesUnder F d) (fun x => mem_leavesUnder)
+      have hN'' := del_root nz F hn hy hroot (leavesUnder F d) (fun x => mem_leavesUnder)
       have r := unrootCore L ih (d := d) hroot (hKd d List.mem_cons_self)
         (fun q hq => (hole_rest_out q hq).2) hN''
       refine r.mono_hole ?_ hkout
@@ -254,7 +254,7 @@ theorem unremove_chain (cr : CR H) : ∀ (ds : List Pos) (F : Forest H), F.numLe
         | false => rfl
         | true => exact absurd hx hroot
       have hnrR : ¬ FRoot F d := by unfold FRoot; rw [hnr]; simp
-      obtain ⟨D1, D2, D3, D4⟩ := del_nonroot cr F hn hy hd hnr (leavesUnder F d) (fun x => mem_leavesUnder)
+      obtain ⟨D1, D2, D3, D4⟩ := del_nonroot nz F hn hy hd hnr (leavesUnder F d) (fun x => mem_leavesUnder)
       have r := unliftCoreP L L1 ih hd hnrR (hKd d List.mem_cons_self) (hKpd d List.mem_cons_self hnr)
         (fun q hq => (hole_rest_out q hq).1) D1 D2 D3 D4
       refine r.mono_hole ?_ hkout
@@ -422,7 +422,7 @@ theorem moveDown_eq {A : Pos → Option (Leaf H)} {C : H → Option Pos} {N : Li
 
 /-- **`undoDelMoveDown` over the reversed detwinned targets**, on a state that tracks the forest
 after the deletions: the result is represented by `moveBackAll` -/
-theorem unremove_rep (cr : CR H) : ∀ (ds : List Pos) (F : Forest H), F.numLeaves < 2 ^ 63 → Hyg F →
+theorem unremove_rep (nz : NZ H) : ∀ (ds : List Pos) (F : Forest H), F.numLeaves < 2 ^ 63 → Hyg F →
     (∀ d ∈ ds, ∃ h b, (d, h, b) ∈ F.nodes) →
     ds.Pairwise (fun a b => ¬ Anc (parent a) b ∧ ¬ Anc b (parent a)) →
     ∀ (K Kp : H → Prop), (∀ d ∈ ds, ∀ t x, (t, x, true) ∈ F.nodes → Anc d t → ¬ K x) →
@@ -439,12 +439,12 @@ theorem unremove_rep (cr : CR H) : ∀ (ds : List Pos) (F : Forest H), F.numLeav
     have hn : F.numLeaves < 2 ^ 64 := by omega
     obtain ⟨h, b, hd⟩ := hnode d List.mem_cons_self
     rw [List.pairwise_cons] at hsep
-    have L := laws_forest cr F hn hy
+    have L := laws_forest nz F hn hy
     have hy1 := hyg_delLeaves hy (leavesUnder F d)
     have hnl1 : (F.delLeaves (leavesUnder F d)).numLeaves = F.numLeaves := numLeaves_delLeaves F _
     have hn1 : (F.delLeaves (leavesUnder F d)).numLeaves < 2 ^ 64 := by rw [hnl1]; exact hn
     have L1 : Laws (F.delLeaves (leavesUnder F d)).nodes (FRoot F) := by
-      have := laws_forest cr (F.delLeaves (leavesUnder F d)) hn1 hy1
+      have := laws_forest nz (F.delLeaves (leavesUnder F d)) hn1 hy1
       rwa [froot_del] at this
     have pers : ∀ d' ∈ ds,
         (∀ h' b', (d', h', b') ∈ F.nodes → (d', h', b') ∈ (F.delLeaves (leavesUnder F d)).nodes) ∧
@@ -453,12 +453,12 @@ theorem unremove_rep (cr : CR H) : ∀ (ds : List Pos) (F : Forest H), F.numLeav
       have hs := hsep.1 d' hd'
       by_cases hroot : isRootPos F.numLeaves d = true
       · obtain ⟨s1, s2⟩ := sep_disj hs
-        exact persist_root cr F hn hy hroot s1 s2
+        exact persist_root nz F hn hy hroot s1 s2
       · have hnr : isRootPos F.numLeaves d = false := by
           cases hx : isRootPos F.numLeaves d with
           | false => rfl
           | true => exact absurd hx hroot
-        exact persist_nonroot cr F hn hy hd hnr hs.1 hs.2
+        exact persist_nonroot nz F hn hy hd hnr hs.1 hs.2
     have hmemLU : ∀ d' ∈ ds, ∀ x, x ∈ leavesUnder (F.delLeaves (leavesUnder F d)) d' ↔ x ∈ leavesUnder F d' := by
       intro d' hd' x
       rw [mem_leavesUnder, mem_leavesUnder]
@@ -495,10 +495,10 @@ theorem unremove_rep (cr : CR H) : ∀ (ds : List Pos) (F : Forest H), F.numLeav
         (fun _ => False) := by
       rw [froot_del]; exact HInvP.congr_N inv (congrArg Forest.nodes hFall)
     -- the rest of the list first
-    obtain ⟨m1, hmd1, rep1, hnl1', hfull1⟩ := unremove_rep cr ds (F.delLeaves (leavesUnder F d)) (by rw [hnl1]; exact hn63) hy1
+    obtain ⟨m1, hmd1, rep1, hnl1', hfull1⟩ := unremove_rep nz ds (F.delLeaves (leavesUnder F d)) (by rw [hnl1]; exact hn63) hy1
       hnode1 hsep.2 K Kp hKd1 hKpd1 m T A C rep (by rw [hnl1]; exact hnl)
       (by show forestRows (F.delLeaves (leavesUnder F d)).numLeaves ≤ T; rw [hnl1]; exact hfit) hfull inv0
-    have inv1 := unremove_chain cr ds (F.delLeaves (leavesUnder F d)) hn1 hy1 hnode1 hsep.2 K Kp hKd1 hKpd1 A C inv0
+    have inv1 := unremove_chain nz ds (F.delLeaves (leavesUnder F d)) hn1 hy1 hnode1 hsep.2 K Kp hKd1 hKpd1 A C inv0
     rw [froot_del, hnl1] at inv1
     rw [hnl1] at rep1
     generalize hAC : moveBackAll F.numLeaves ds (A, C) = AC at rep1 inv1
@@ -547,7 +547,7 @@ theorem unremove_rep (cr : CR H) : ∀ (ds : List Pos) (F : Forest H), F.numLeav
         | false => rfl
         | true => exact absurd hx hroot
       have hnrR : ¬ FRoot F d := by unfold FRoot; rw [hnr]; simp
-      obtain ⟨D1, D2, D3, D4⟩ := del_nonroot cr F hn hy hd hnr (leavesUnder F d) (fun x => mem_leavesUnder)
+      obtain ⟨D1, D2, D3, D4⟩ := del_nonroot nz F hn hy hd hnr (leavesUnder F d) (fun x => mem_leavesUnder)
       obtain ⟨ρ, hρ, hρd⟩ := L.under_root d h b hd
       obtain ⟨hσ0, bσ0, hσN⟩ := L.sib_node d h b hd hnrR
       obtain ⟨hρh, bρ, hρN⟩ := L.root_node ρ hρ
